@@ -6,7 +6,8 @@
     Proofs/UDistUntiedEval.v (evaluators of the untied specification, all sizes),
     Proofs/B64Arith.v + Proofs/UTestSigma.v (binary64 sigma_U, classical reals),
     Proofs/UDistSpecFull.v (the three evaluators of the specification agree, unbounded),
-    Proofs/UDistSpecJudge.v (what Corr/RunC11.v judges against is the declarative tail).
+    Proofs/UDistSpecJudge.v (what Corr/RunC11.v judges against is the declarative tail),
+    Proofs/UTestHist.v, Proofs/UTestHistJudge.v (histories over the caller's memory, concurrent calls).
 
     Model = golang/perf's internal/stats after hooks/fix_c11_udist_k2.diff,
     fix_c11_utest_greater.diff, fix_c11_utest_twosided_cap.diff and
@@ -23,6 +24,8 @@ From Perf Require Import Proofs.UDistSum Proofs.UDistPrune Proofs.UTestExact Pro
 From Perf Require Import Proofs.UDistRev Proofs.UDistDP Proofs.UTestUntied Proofs.UTestSigmaSweep Proofs.UTestSigma.
 From Perf Require Import Proofs.UDistUntiedEval.
 From Perf Require Import Proofs.UDistSpecFull Proofs.UDistSpecJudge.
+From Perf Require Import Model.UTestHist Proofs.UTestHist Proofs.UTestHistJudge.
+From Coq Require Import Sorting.Permutation.
 From Perf Require Corr.RunC11.
 Import ListNotations.
 Local Open Scope Z_scope.
@@ -547,6 +550,83 @@ Theorem C11_twosided_swap_refuted :
   exists x1 x2,
     pexact_frac (exact_p (ustat_of x1 x2) Differs) <> pexact_frac (exact_p (ustat_of x2 x1) Differs).
 Proof. exact twosided_swap_refuted. Qed.
+
+(** ** histories over memory of the caller, concurrent calls (Model/UTestHist.v) *)
+
+(** a history of calls whose arguments are windows of ONE backing array (adjacent,
+    overlapping, nested, identical): after every call the array is what it was, and
+    every call returns the test of the values its windows held before the first call *)
+Theorem C11_history_inputs_unchanged : forall erfc mem ops,
+  run_hist erfc mem ops = map (fun o => (mwu erfc (arg1 mem o) (arg2 mem o) (h_alt o), mem)) ops.
+Proof. exact run_hist_spec. Qed.
+Print Assumptions C11_history_inputs_unchanged.
+
+(** no call depends on the calls made before it *)
+Theorem C11_history_calls_independent : forall erfc mem ops1 ops2,
+  run_hist erfc mem (ops1 ++ ops2) = run_hist erfc mem ops1 ++ run_hist erfc mem ops2.
+Proof. exact run_hist_app. Qed.
+Print Assumptions C11_history_calls_independent.
+
+(** series[:k] and series[k:] are the two samples of the split at k *)
+Theorem C11_split_windows : forall mem k, 0 <= k <= Z.of_nat (length mem) ->
+  window mem 0 k ++ window mem k (Z.of_nat (length mem)) = mem.
+Proof. exact window_split. Qed.
+Print Assumptions C11_split_windows.
+
+(** concurrent calls: whatever the order in which the calls of a batch take effect,
+    the slot of job i holds the sequential result of job i *)
+Theorem C11_concurrent_slot_is_sequential : forall erfc jobs order i, In i order ->
+  run_batch erfc jobs order i = Some (job_task erfc jobs i).
+Proof. exact run_batch_slot. Qed.
+Print Assumptions C11_concurrent_slot_is_sequential.
+
+Theorem C11_concurrent_schedule_independent : forall erfc jobs order order',
+  Permutation order order' -> forall i, run_batch erfc jobs order i = run_batch erfc jobs order' i.
+Proof. exact run_batch_schedule_independent. Qed.
+Print Assumptions C11_concurrent_schedule_independent.
+
+(** what the check accepts on a history case: NO call changed the caller's array and
+    every outcome satisfies the property's predicate for the ORIGINAL values of its windows *)
+Theorem C11_prop_ok_history_judges_original : forall c,
+  Perf.Corr.RunC11.prop_ok_h c = true ->
+  forall op, In op (Perf.Corr.RunC11.hc_ops c) ->
+    let o := Perf.Corr.RunC11.ho_op op in let s := Perf.Corr.RunC11.hc_series c in
+    Perf.Corr.RunC11.ho_mut op = []
+    /\ valid_window s (h_lo1 o) (h_hi1 o) = true /\ valid_window s (h_lo2 o) (h_hi2 o) = true
+    /\ Perf.Corr.RunC11.prop_ok_u
+         (Perf.Corr.RunC11.mkU (window s (h_lo1 o) (h_hi1 o)) (window s (h_lo2 o) (h_hi2 o)) (h_alt o)
+            (Perf.Corr.RunC11.hc_lims c) (Perf.Corr.RunC11.ho_out op) Perf.Corr.RunC11.LNone
+            (Perf.Corr.RunC11.hc_oracle c)) = true.
+Proof. exact prop_ok_h_judges_original. Qed.
+Print Assumptions C11_prop_ok_history_judges_original.
+
+(** ... and on a concurrent batch: >= 8 goroutines on >= 4 processors, race detector
+    silent, inputs unchanged, the sequential outcome of every job satisfies the
+    property's predicate and every concurrent outcome of that job equals it bit for bit *)
+Theorem C11_prop_ok_concurrent_judges : forall c,
+  Perf.Corr.RunC11.prop_ok_c c = true ->
+  4 <= Perf.Corr.RunC11.cc_procs c /\ 8 <= Perf.Corr.RunC11.cc_gor c /\
+  Perf.Corr.RunC11.cc_race_ok c = true /\ Perf.Corr.RunC11.cc_unchanged c = true /\
+  forall j, In j (Perf.Corr.RunC11.cc_jobs c) ->
+    Perf.Corr.RunC11.prop_ok_u (Perf.Corr.RunC11.j_case j) = true /\ Perf.Corr.RunC11.j_conc j <> [] /\
+    forall o, In o (Perf.Corr.RunC11.j_conc j) ->
+      Perf.Corr.RunC11.outcome_same (Perf.Corr.RunC11.u_out (Perf.Corr.RunC11.j_case j)) o = true.
+Proof. exact prop_ok_c_judges. Qed.
+Print Assumptions C11_prop_ok_concurrent_judges.
+
+(** non-vacuity: x[:4] vs x[2:] on x = 9 2 7 4 1 8, then the split at 3 *)
+Example C11_example_history :
+  let x := [9; 2; 7; 4; 1; 8] in
+  let ops := [mkHop 0 4 2 6 Differs; mkHop 0 3 3 6 Less] in
+  arg1 x (mkHop 0 4 2 6 Differs) = [9; 2; 7; 4] /\ arg2 x (mkHop 0 4 2 6 Differs) = [7; 4; 1; 8] /\
+  valid_window x 0 4 = true /\ valid_window x 2 6 = true /\ valid_window x 2 7 = false /\
+  map snd (run_hist (fun _ => None) x ops) = [x; x] /\
+  map fst (run_hist (fun _ => None) x ops)
+    = [mwu (fun _ => None) [9; 2; 7; 4] [7; 4; 1; 8] Differs; mwu (fun _ => None) [9; 2; 7] [4; 1; 8] Less] /\
+  us_twoU1 (ustat_of [9; 2; 7; 4] [7; 4; 1; 8]) = 18 /\
+  run_batch (fun _ => None) [([9; 2; 7], [4; 1; 8], Less); ([1], [2; 3], Greater)] [1; 0]%nat 1%nat
+    = Some (Some (mwu (fun _ => None) [1] [2; 3] Greater)).
+Proof. vm_compute. repeat split. Qed.
 
 (** non-vacuity: concrete instances of the hypotheses and of the statements *)
 Example C11_example :
